@@ -148,7 +148,11 @@ func (p c20) Run(c *core.Ctx, idx int) {
 	case "A-loads":
 		p.loads(c, clock, G, fam)
 	case "B-use":
-		p.use(c, clock, G, false)
+		if idx%2 == 0 {
+			p.use(c, clock, G, false)
+		} else {
+			p.firstUse(c, clock, G)
+		}
 	default:
 		p.use(c, clock, G, true)
 	}
@@ -395,5 +399,137 @@ func (p c20) use(c *core.Ctx, clock *opClock, G int, mixed bool) {
 	d1, _ := walk.Dump(s.Mod)
 	if walk.JSON(d1) != dumpBefore {
 		c.Violate("use/module-mutated/dump", "the canonical dump of the compiled module changed while it was being used")
+	}
+}
+
+// firstUse: a freshly compiled module with union / leafref / enum / identityref / bits leaves is used for the
+// first time by G goroutines at once (lazily cached fields would be written concurrently); the sequential
+// baseline is computed afterwards on a second, fresh load of the same text.
+func (p c20) firstUse(c *core.Ctx, clock *opClock, G int) {
+	text := `module m { namespace "urn:m"; prefix m; revision 2020-01-01;
+  typedef t1 { type int32 { range "0..100"; } default "5"; units "u"; } typedef t2 { type t1 { range "10..20"; } }
+  typedef u1 { type union { type int32; type string; } }
+  identity base; identity d1 { base base; } identity d2 { base d1; }
+  leaf a { type t2; } leaf b { type enumeration { enum x; enum y; } default "y"; } leaf d { type u1; } leaf d2 { type union { type uint8; type boolean; type string { length "1..3"; } } }
+  leaf-list dl { type u1; } leaf f { type leafref { path "../a"; } } leaf g { type identityref { base base; } } leaf h { type bits { bit b0; bit b1; } }
+  leaf s { type string { pattern "[a-z]+"; length "1..10"; } } leaf dec { type decimal64 { fraction-digits 2; range "0..10"; } }
+  list l { key k; leaf k { type string; } leaf v { type t1; } leaf w { type u1; } }
+  container c { when "a>5"; leaf inner { type string; } } }`
+	doc := func(g int) string {
+		return fmt.Sprintf(`{"a":%d,"b":"x","d":"text%d","d2":%d,"dl":[1,"two",3],"f":%d,"g":"d2","h":"b0 b1","s":"abc","dec":1.5,"l":[{"k":"k%d","v":7,"w":"s"},{"k":"z%d","v":8,"w":9}],"c":{"inner":"i"}}`, 10+g%10, g, g%200, 10+g%10, g, g)
+	}
+	load := func() *meta.Module {
+		m, err := parser.LoadModuleFromString(nil, text)
+		if err != nil {
+			c.Violate("first-use/load-error", "%v", err)
+			return nil
+		}
+		return m
+	}
+	run := func(m *meta.Module, g int, clk *opClock) []string {
+		var out []string
+		step := func(kind string, f func() (string, error)) {
+			var t0 int64
+			if clk != nil {
+				t0 = clk.begin()
+			}
+			res, err := f()
+			if clk != nil {
+				clk.end(kind, t0)
+			}
+			out = append(out, fmt.Sprintf("%s:%v:%s", kind, err, res))
+		}
+		data := map[string]interface{}{}
+		b := node.NewBrowser(m, nodeutil.ReflectChild(data))
+		step("upsert-json", func() (string, error) {
+			n, err := nodeutil.ReadJSON(doc(g))
+			if err != nil {
+				return "", err
+			}
+			return "", b.Root().UpsertFrom(n)
+		})
+		step("json", func() (string, error) { return nodeutil.WriteJSON(b.Root()) })
+		step("xml", func() (string, error) { return nodeutil.WriteXMLDoc(b.Root(), false) })
+		step("find", func() (string, error) {
+			sel, err := b.Root().Find(fmt.Sprintf("l=k%d", g))
+			if err != nil || sel == nil {
+				return "nil", err
+			}
+			return nodeutil.WriteJSON(sel)
+		})
+		step("getvalue", func() (string, error) {
+			v, err := b.Root().GetValue("d2")
+			return fmt.Sprint(v), err
+		})
+		step("setvalue", func() (string, error) {
+			sel, err := b.Root().Find("d")
+			if err != nil || sel == nil {
+				return "", err
+			}
+			return "", sel.SetValue(g)
+		})
+		step("reject", func() (string, error) {
+			sel, err := b.Root().Find("a")
+			if err != nil || sel == nil {
+				return "", err
+			}
+			e := sel.SetValue(500)
+			return fmt.Sprint(e != nil), nil
+		})
+		step("json-trim", func() (string, error) {
+			sel, err := b.Root().Find("?with-defaults=trim")
+			if err != nil {
+				return "", err
+			}
+			return nodeutil.WriteJSON(sel)
+		})
+		return out
+	}
+	m := load()
+	if m == nil {
+		return
+	}
+	fpBefore := walk.Fingerprint(m)
+	got := make([][]string, G)
+	pan := make([]interface{}, G)
+	var start, wg sync.WaitGroup
+	start.Add(1)
+	for g := 0; g < G; g++ {
+		wg.Add(1)
+		go func(g int) {
+			defer wg.Done()
+			defer func() { pan[g] = recover() }()
+			start.Wait()
+			got[g] = run(m, g, clock)
+		}(g)
+	}
+	start.Done()
+	wg.Wait()
+	fpAfter := walk.Fingerprint(m)
+	m2 := load()
+	if m2 == nil {
+		return
+	}
+	for g := 0; g < G; g++ {
+		c.Eval()
+		if pan[g] != nil {
+			c.Violate("first-use/panic-under-concurrency", "goroutine %d panicked: %v", g, pan[g])
+			continue
+		}
+		base := run(m2, g, nil)
+		for i := range base {
+			if i >= len(got[g]) || got[g][i] != base[i] {
+				gv := "<missing>"
+				if i < len(got[g]) {
+					gv = got[g][i]
+				}
+				c.Violate("first-use/result-differs-from-sequential/"+strings.SplitN(base[i], ":", 2)[0], "goroutine %d: concurrent first use gives a different result than use alone\nconcurrent: %s\nalone:      %s", g, head(gv, 500), head(base[i], 500))
+				break
+			}
+		}
+	}
+	c.Eval()
+	if fpAfter != fpBefore {
+		c.Violate("first-use/module-mutated/fingerprint", "using the compiled module changed it (reflection fingerprint %x -> %x): some accessor caches into the shared schema", fpBefore, fpAfter)
 	}
 }
